@@ -239,3 +239,14 @@ Theorem C01_pst13_committed_items_good :
     ph_commit1 nv s betas p hiding rng = Ok (cm, st, n) -> good nv (p, st).
 Proof. exact @ph_commit1_good. Qed.
 Print Assumptions C01_pst13_committed_items_good.
+
+(* Brakedown (and any linear code given by its generator matrix, the images of the unit messages under the encoder):
+   the proof built by open passes every check of the verifier for the value <v, a> *)
+Theorem C01_brakedown_complete :
+  forall (FO : FieldOps) (FL : FieldLaws FO) G wf n_cols n_ext rows point r idx pf a b,
+    Forall (fun r => length r = n_cols) rows ->
+    tensor_ml point n_cols = Ok (a, b) ->
+    l_open_bd G wf n_cols n_ext rows point r idx = Ok pf ->
+    l_check_bd G wf n_cols n_ext (map (mat_enc G n_ext) rows) point (ip (lf_v pf) a) pf r idx = Ok true.
+Proof. exact @brakedown_complete. Qed.
+Print Assumptions C01_brakedown_complete.
